@@ -94,6 +94,23 @@ func init() {
 				jobs = append(jobs, Job{Variant: "asan", Mode: "qlz.c10", Args: js(map[string]interface{}{"Codec": codec / 3, "MaxSize": 1 << 20, "Hostile": hostile})})
 				jobs = append(jobs, Job{Variant: "plain", Mode: "qlz.c10", Args: js(map[string]interface{}{"Codec": codec, "MaxSize": 4 << 20, "Hostile": hostile / 4})})
 			}
+			// store level
+			sv, sn, maxVal := 120, 6, 300000
+			if tier == "thorough" {
+				sv, sn, maxVal = 1500, 14, 4<<20
+			}
+			r := ref.NewRand(seed ^ 0xc10)
+			for i := 0; i < sn; i++ {
+				c := StoreCfg{NumBucket: r.Pick(1, 16), TreeHeight: 3, DataFileMax: int64(r.Pick(64, 4000<<12)) * 256, SplitCap: int64(r.Pick(64, 1<<20)), IndexInterval: 4096, BodyInC: int64(r.Pick(0, 4096)), BodyMax: 8 << 20}
+				if c.NumBucket == 16 {
+					c.Served = []int{r.Intn(16), r.Intn(16)}
+				}
+				variant := "plain"
+				if i == 0 {
+					variant = "asan"
+				}
+				jobs = append(jobs, Job{Variant: variant, Mode: "db.c10", Args: js(map[string]interface{}{"Cfg": c, "Values": sv, "MaxVal": maxVal})})
+			}
 			return jobs
 		},
 	})
@@ -212,6 +229,63 @@ func init() {
 				}
 				gc := i%3 != 0
 				jobs = append(jobs, Job{Variant: "plain", Mode: "db.c13", Args: js(map[string]interface{}{"Cfg": c, "Histories": hist, "NOps": ops, "NKeys": r.Range(5, 10), "MaxVal": maxVal, "MaintPct": 20, "Restart": true, "GC": gc, "Collide": r.Range(1, 3), "Prop": "c13"})})
+			}
+			return jobs
+		},
+	})
+	register(&PropSpec{
+		ID: "C08", Level: "exploration",
+		Rule:        "tree level: random set / tombstone / remove histories on HTree (1, 16, 256 buckets x heights 2..5, hash pools concentrated under 1..40 leaves so that leaf populations cross the 100-item C search and the 256-key listing thresholds); every listing (all prefixes of sampled key hashes from the bucket root to 16 digits, plus random absent prefixes) is compared with the reference recomputation from the final content, with a second tree built from the same content by another history (node level exactly, item level as sets) and with a tree that went through dump+load; store level: see db.c08 events. distinct = (listing kind x level x height x bucket count x leaf-population class)",
+		Assumptions: []string{"ref/merkle.go states the documented hash/count/listing rules; it was validated against the unchanged tree in the design phase"},
+		Plan: func(tier string, seed uint64) []Job {
+			var jobs []Job
+			n, cases, ops := 10, 6, 3000
+			if tier == "thorough" {
+				n, cases, ops = 28, 50, 20000
+			}
+			for i := 0; i < n; i++ {
+				jobs = append(jobs, Job{Variant: "plain", Mode: "store.c08tree", Args: js(map[string]interface{}{"Cases": cases, "Ops": ops})})
+			}
+			if tier == "thorough" {
+				jobs = append(jobs, Job{Variant: "asan", Mode: "store.c08tree", Args: js(map[string]interface{}{"Cases": 10, "Ops": 5000})})
+			}
+			// store level: k-tuples of real stores driven to the same final content by different histories
+			r := ref.NewRand(seed ^ 0xc08)
+			ns, scases, maxKeys := 8, 2, 700
+			if tier == "thorough" {
+				ns, scases, maxKeys = 28, 12, 1500
+			}
+			for i := 0; i < ns; i++ {
+				c := StoreCfg{NumBucket: []int{1, 16, 256}[i%3], TreeHeight: r.Range(2, 4), DataFileMax: int64(r.Pick(64, 256, 1024)) * 256, SplitCap: int64(r.Pick(64, 1<<20)), IndexInterval: 4096, BodyInC: int64(r.Pick(0, 4096)), BodyMax: 4096}
+				if c.NumBucket == 256 {
+					for j := 0; j < 12; j++ {
+						c.Served = append(c.Served, r.Intn(256))
+					}
+				}
+				jobs = append(jobs, Job{Variant: "plain", Mode: "db.c08", Args: js(map[string]interface{}{"Cfg": c, "Cases": scases, "MaxKeys": maxKeys})})
+			}
+			return jobs
+		},
+	})
+	register(&PropSpec{
+		ID: "C15", Level: "exploration",
+		Rule:        "real key hash; for 1, 16 and 256 buckets and served-bucket patterns none / one / random subset / all: generated keys are set and flushed one at a time, the reference key hash gives the expected bucket, a before/after inventory (name, size, sha1) of every file below the home directory must show changes only inside the expected bucket's directory (nothing at all for an unserved bucket, where get must miss), the record must be found by the independent scanner in that directory's data files, listings at prefixes shorter than / equal to / longer than the bucket depth must equal the reference aggregate over the served buckets, and all keys read back after a restart with rebuilt indexes. distinct = (bucket count x pattern x served x first digit) and listing signatures",
+		Assumptions: []string{"ref.KeyHash (validated by C16) and ref.BucketOf state the routing rule of the property"},
+		Plan: func(tier string, seed uint64) []Job {
+			keys, pats := 60, 4
+			if tier == "thorough" {
+				keys, pats = 400, 12
+			}
+			var jobs []Job
+			for _, nb := range []int{1, 16, 256} {
+				k := keys
+				if nb == 256 {
+					k = keys / 2 // the inventory walks 256 directories per key
+				}
+				jobs = append(jobs, Job{Variant: "plain", Mode: "db.c15", Args: js(map[string]interface{}{"NumBucket": nb, "Keys": k, "Patterns": pats})})
+				if tier == "thorough" {
+					jobs = append(jobs, Job{Variant: "plain", Mode: "db.c15", Args: js(map[string]interface{}{"NumBucket": nb, "Keys": k, "Patterns": pats})})
+				}
 			}
 			return jobs
 		},
